@@ -49,4 +49,14 @@ def relevant(pid, key):
             return True
     return False
 
+def file_relevant(pid, key):
+    """budget-only relevance: the key's FILE is one a rule of the property mentions (used for added /
+    removed functions and for the per-file `<items>` hash of everything outside function bodies)"""
+    rel = key.split("::")[0] + "::"
+    if pid == "C04":
+        return any(k.startswith(rel) for k in _norm) or rel in ("src/biguint.rs::", "src/bigint.rs::")
+    if pid == "C10":
+        return True                     # operator impls and forwarding macros live in every file
+    return any(re.search(pat.split("::")[0] + "::", rel) for pat in RULES.get(pid, []))
+
 STRICT = set(RULES) | {"C04"}     # C14 and C16 decide through their own source-wide site lists
